@@ -504,6 +504,19 @@ theorem owner_forwards (h : Store) (l src : List ObjId) :
   · unfold apSetParametersValues; dsimp only
     cases e : (setParametersValues h l src).err <;> simp
 
+/-- the owner's `setParameterValue(name, v)`: outcome and effect of `setParameterValue(prefix+name, v)`
+on its list; on success the notification carries one fresh object, a copy of the updated parameter -/
+theorem owner_set_value_forwards (h : Store) (l : List ObjId) (pre n : String) (v : Rat) (vl : Valid h l) :
+    let r := apSetParameterValue h l pre n v
+    r.err = (setParameterValue h l (pre ++ n) v).err ∧
+    (∀ t ∈ l, r.heap.get t = (setParameterValue h l (pre ++ n) v).heap.get t) ∧
+    (r.err ≠ none → r.fired = none) ∧
+    (r.err = none → ∃ t, find? h l (pre ++ n) = some t ∧ r.fired = some [h.next] ∧
+      r.heap.get h.next = r.heap.get t) := by
+  obtain ⟨a, b⟩ := apSetParameterValue_spec h l pre n v vl
+  obtain ⟨c, d⟩ := apSetParameterValue_fired h l pre n v vl
+  exact ⟨a, b, c, d⟩
+
 theorem owner_match_forwards (h : Store) (l src : List ObjId) (nd : (names h src).Nodup)
     (ok : (matchParametersValues h l src).err = none) :
     let m := matchParametersValues h l src
@@ -540,7 +553,8 @@ theorem check_sound (n : Nat) (s : State) (inv : Inv s) (op : Op) :
   simp only [checkStep, clauseNames_sound n inv op, clauseOk_sound n inv op, clauseAtomic_sound n inv op,
     clauseFrame_sound n s op, clauseApplies_sound inv op, clauseMatch_sound inv op, clauseFresh_sound inv op,
     clauseShare_sound inv op, clauseDelete_sound op, clauseAdd_sound op, clauseLookup_sound op,
-    clauseUpdate_sound inv op, clauseDeleteNames_sound op, clauseMerge_sound inv op, clauseAssign_sound inv op]
+    clauseUpdate_sound inv op, clauseDeleteNames_sound op, clauseMerge_sound inv op, clauseAssign_sound inv op,
+    clauseNotify_sound inv op]
   rfl
 
 /-- … hence along every history from the empty machine (without `setNamespace`). -/
